@@ -2,6 +2,7 @@
 
 pub mod c07;
 pub mod case;
+pub mod contend;
 pub mod decode;
 pub mod gen;
 pub mod interp;
@@ -89,6 +90,13 @@ impl Engine for Msim {
                 name: "sweep".into(),
                 cases: if thorough { 16 * 600 } else { 16 * 40 },
                 strategy: gen::sweep_case(&ctx.prop, thorough),
+            });
+        }
+        if matches!(ctx.prop.as_str(), "C01" | "C02" | "C08" | "C09" | "C11") {
+            stages.push(Stage {
+                name: "contention".into(),
+                cases: if thorough { 16 * 300 } else { 16 * 12 },
+                strategy: gen::contend_case(&ctx.prop),
             });
         }
         if ctx.prop == "C04" {
